@@ -85,6 +85,27 @@ class GuardCtx:
             if d is not None:
                 return self.relating(d, pol, obj_a, obj_b, len_facets)
             return False
+        c1 = c.strip_all()
+        if c1.is_call() and c1.callee and c1.callee.get("repo") and c1.tc == "bool" and self.prog is not None \
+                and c1.k not in ("CXXConstructExpr", "CXXTemporaryObjectExpr", "CXXOperatorCallExpr") and getattr(self, "_pred_depth", 0) < 2:
+            # a predicate over the operands: _same_length(rhs, *this) { return !(a.size() != b.size()); }
+            g = self.prog.functions.get(c1.callee.get("usr"))
+            rets = [x for x in g.walk() if x.k == "ReturnStmt" and x.c] if g is not None else []
+            if len(rets) == 1:
+                args = c1.call_args()
+                pmap = {}
+                for i, prm in enumerate(g.params):
+                    if i < len(args):
+                        pmap[prm["n"]] = self.objs(args[i]) | self.base_objs(args[i])
+                hctx = GuardCtx(self.prog, g, group_params=False, parm_objs=pmap)
+                obj = c1.call_object() if c1.k == "CXXMemberCallExpr" else None
+                if obj is not None and not c1.callee.get("static"):
+                    hctx.this_objs = self.objs(obj) | self.base_objs(obj)
+                elif c1.k == "CXXMemberCallExpr" and getattr(self, "this_objs", None):
+                    hctx.this_objs = self.this_objs
+                hctx._pred_depth = getattr(self, "_pred_depth", 0) + 1
+                return hctx.relating(rets[0].c[0], pol, obj_a, obj_b, len_facets)
+            return False
         cmp_ = as_comparison(c)
         if cmp_ is None:
             return False
